@@ -27,6 +27,10 @@ func (c c06Case) String() string {
 	return fmt.Sprintf("%s %s existing=%v corrupt=%q algo=%s size=%d chunks=%v versioned=%v", c.target, c.mode, c.existing, c.corrupt, c.algo, c.size, c.chunks, c.versioned)
 }
 
+// corruptions that make sense for a zero-length upload (declared length 0)
+var c06ZeroOK = map[string]bool{"content-md5-wrong": true, "checksum-header-wrong": true, "sha256-header-of-other-data": true, "chunk-sig-final": true,
+	"trailer-checksum-wrong": true, "trailer-signature-wrong": true, "zero-declared-with-payload": true}
+
 var c06Algos = []string{"crc32", "crc32c", "sha1", "sha256", "crc64nvme"}
 
 // corruptions applicable to a mode
@@ -41,7 +45,8 @@ func c06Corruptions(mode string) []string {
 		return append(common, "chunk-sig-first", "chunk-sig-middle", "chunk-sig-final", "chunk-data-bit-flip", "truncate-after-chunk", "truncate-mid-chunk",
 			"truncate-before-final", "declared-length-larger", "declared-length-smaller", "extra-bytes-after-final", "chunk-size-larger-than-data",
 			"cut-at-chunk-boundary-length-adjusted", "cut-at-chunk-boundary-length-adjusted+bit-flip", "cut-at-chunk-boundary-length-adjusted+sig-wrong",
-			"cut-at-chunk-data-end-length-adjusted", "cut-at-chunk-data-end-length-adjusted+bit-flip", "cut-at-chunk-data-end-length-adjusted+sig-wrong")
+			"cut-at-chunk-data-end-length-adjusted", "cut-at-chunk-data-end-length-adjusted+bit-flip", "cut-at-chunk-data-end-length-adjusted+sig-wrong",
+			"zero-declared-with-payload")
 	case "stream-signed-trailer":
 		return []string{"trailer-checksum-wrong", "trailer-signature-wrong", "chunk-sig-first", "chunk-sig-final", "chunk-data-bit-flip", "truncate-after-chunk",
 			"truncate-before-final", "truncate-in-trailer", "declared-length-larger", "declared-length-smaller",
@@ -211,6 +216,12 @@ func (c c06Case) apply(req *gw.Req, body []byte) {
 	case "declared-length-larger":
 		n := int64(len(body) + 1 + len(body)/2)
 		req.DeclLen = &n
+	case "zero-declared-with-payload":
+		n := int64(0)
+		req.DeclLen = &n
+		if len(body) == 0 {
+			req.Body = []byte("unexpected-payload")
+		}
 	case "declared-length-smaller":
 		n := int64(len(body) / 2)
 		req.DeclLen = &n
@@ -304,6 +315,10 @@ func c06Matrix(a lib.Args, res *lib.Result) error {
 							size := []int{0, 1, 20, 257, 5000, 70000}[r.Intn(6)]
 							if cor != "" && size < 20 {
 								size = 20 + r.Intn(300)
+							}
+							// the assertions that can be violated with an EMPTY payload: every third such case
+							if c06ZeroOK[cor] && r.Intn(3) == 0 {
+								size = 0
 							}
 							nch := 1 + r.Intn(3)
 							var chunks []int
